@@ -908,6 +908,32 @@ func c11(c *core.Ctx, r *core.Report) {
 			carry = k
 		}
 	}
+	// the carry arithmetic may live in a helper of the package that is handed the cell's address (a wrapper type
+	// around the remainder with a method): the template is then decided on the helper, and the rate method has to
+	// return what the helper returns
+	carryFn := forFn
+	var carryCall *ssa.Call
+	if carry.fld == nil {
+		for _, call := range an.AllCalls(forFn) {
+			cv, ok := call.(*ssa.Call)
+			t := an.Callee(call)
+			if !ok || t == nil || t.Blocks == nil || core.RelPkg(t) != gpkg || len(cv.Call.Args) == 0 || len(t.Params) == 0 {
+				continue
+			}
+			fa, ok := cv.Call.Args[0].(*ssa.FieldAddr)
+			if !ok {
+				continue
+			}
+			f, owner := an.TerminalField(fa)
+			if f == nil || !nestedIn(c, owner, core.ModPath+"/"+gpkg, "Calculator") {
+				continue
+			}
+			k := cell{name: f.Name(), fld: f, param: t.Params[0]}
+			if len(k.stores(t)) > 0 && len(k.loads(t)) > 0 {
+				carry, carryFn, carryCall = k, t, cv
+			}
+		}
+	}
 	an.Instrs(forFn, func(in ssa.Instruction) {
 		bo, ok := in.(*ssa.BinOp)
 		if !ok || bo.Op != token.MUL {
@@ -927,9 +953,26 @@ func c11(c *core.Ctx, r *core.Report) {
 			r.Violation(core.FuncName(forFn)+"#carry", c.Pos(forFn.Pos()), "the rate method keeps no fractional remainder between ticks: fractions of the rate are lost on every tick")
 			return
 		}
-		if carryTemplate(c, r, forFn, carry, "fraction") {
-			for _, st := range carry.stores(forFn) {
-				q := an.RootFV(forFn, st.Val).Resolve(nil)
+		if carryCall != nil {
+			// every return of the rate method hands back the helper's result, and the helper runs exactly once before it
+			exits := an.PathCount(forFn, func(in ssa.Instruction) an.Interval {
+				if in == ssa.Instruction(carryCall) {
+					return an.Interval{Lo: 1, Hi: 1}
+				}
+				return an.Interval{}
+			})
+			for _, e := range exits {
+				ret, isRet := e.Instr.(*ssa.Return)
+				if !isRet {
+					continue
+				}
+				okRet := e.Count.Lo == 1 && e.Count.Hi == 1 && len(ret.Results) == 1 && noConv(ret.Results[0]) == ssa.Value(carryCall)
+				r.Check(okRet, core.FuncName(forFn)+"#carry-helper", an.Pos(c, ret), "the rate method returns what "+carryFn.Name()+" emits, once", "this return does not hand back the result of "+carryFn.Name()+" (run "+e.Count.String()+" times on the way): what is emitted differs from what the remainder accounts for")
+			}
+		}
+		if carryTemplate(c, r, carryFn, carry, "fraction") {
+			for _, st := range carry.stores(carryFn) {
+				q := an.RootFV(carryFn, st.Val).Resolve(nil)
 				sub, isSub := q.V.(*ssa.BinOp)
 				if !isSub {
 					continue
@@ -937,12 +980,12 @@ func c11(c *core.Ctx, r *core.Report) {
 				out := an.FV{V: sub.Y, F: q.F}.Resolve(nil)
 				call, ok := out.V.(*ssa.Call)
 				okFloor := ok && an.IsFunc(an.Callee(call), "math", "Floor") && (an.FV{V: call.Call.Args[0], F: out.F}).Resolve(nil).V == (an.FV{V: sub.X, F: q.F}).Resolve(nil).V
-				r.Check(okFloor, core.FuncName(forFn)+"#floor", an.Pos(c, st), "emitted = floor(due)", "the emitted part is "+an.D().Of(sub.Y)+", not floor(due): the stored remainder can be negative or exceed 1")
+				r.Check(okFloor, core.FuncName(carryFn)+"#floor", an.Pos(c, st), "emitted = floor(due)", "the emitted part is "+an.D().Of(sub.Y)+", not floor(due): the stored remainder can be negative or exceed 1")
 			}
 		}
 		n := 0
 		for _, fn := range c.AllFuncs {
-			if fn == forFn {
+			if fn == forFn || fn == carryFn {
 				continue
 			}
 			n += len(carry.stores(fn))
@@ -954,9 +997,14 @@ func c11(c *core.Ctx, r *core.Report) {
 		r.Assumptions = append(r.Assumptions,
 			"C11.R2 assumes: volume ≥ 0, frequency > 0, weights ≥ 0 with a positive mean, PDF ≥ 0 (σ > 0 is enforced by gaussian.NewDistribution), covered probability mass > 0")
 		var nn func(v ssa.Value) (bool, string)
+		paramSub := map[*ssa.Parameter]ssa.Value{}
 		nn = func(v ssa.Value) (bool, string) {
 			v = noConv(v)
 			switch x := v.(type) {
+			case *ssa.Parameter:
+				if a, ok := paramSub[x]; ok {
+					return nn(a)
+				}
 			case *ssa.Const:
 				if x.Value != nil && x.Float64() >= 0 {
 					return true, "const"
@@ -986,6 +1034,24 @@ func c11(c *core.Ctx, r *core.Report) {
 				if t != nil && t.Name() == "PDF" {
 					return true, "density (assumed ≥ 0)"
 				}
+				if carryCall != nil && x == carryCall {
+					// the helper holding the carry arithmetic: each of its returns, with its parameters standing for
+					// the arguments of this call
+					for i, p := range carryFn.Params {
+						if i < len(x.Call.Args) {
+							paramSub[p] = x.Call.Args[i]
+						}
+					}
+					for _, hr := range an.Returns(carryFn) {
+						if len(hr.Results) != 1 {
+							return false, "helper " + carryFn.Name() + " has no single result"
+						}
+						if ok, why := returnNonNeg(hr, hr.Results[0], nn); !ok {
+							return false, "helper " + carryFn.Name() + ": " + why
+						}
+					}
+					return true, "every return of " + carryFn.Name() + " is non-negative for the arguments of this call"
+				}
 			case *ssa.UnOp:
 				if x.Op == token.MUL {
 					if carry.fld != nil && carry.loadOf(x) {
@@ -1002,6 +1068,9 @@ func c11(c *core.Ctx, r *core.Report) {
 					}
 				}
 			case *ssa.Convert:
+				return nn(x.X)
+			case *ssa.ChangeType:
+				// a named float type around the same value (`float64(*r)` with `type carry float64`)
 				return nn(x.X)
 			}
 			return false, "cannot show " + an.D().Of(v) + " ≥ 0"
